@@ -12,7 +12,7 @@ import ast
 from fractions import Fraction
 
 from rsa.model import AnchorError, Undecided, call_name, dotted_name, unparse, walk_no_nested
-from rsa.terms import const_value, inline_locals
+from rsa.terms import const_value, inline_locals, property_body
 from rsa.util import find_calls, parents_map, require
 
 ROUND_FUNCS = {"round", "around", "rint", "round_"}
@@ -488,6 +488,84 @@ def rule_r7(chk, p, t):
     memo_rule(chk, p, t, "C05.R7", modules=("resonaate.physics.time",), floor=12, what="the time conversion modules (physics.time)")
 
 
+def rule_r8(chk, p, t):
+    r = chk.rule(
+        "C05.R8",
+        "one step size: step count, clock tick and agent step come from the same configured field",
+        4,
+        "Scenario.propagateTo divides the duration by Scenario.physics_time_step; the clock advances by "
+        "ScenarioClock.dt_step per stepForward and every agent by the copy it takes of it. All three must be the "
+        "configured physics step, unmodified: physics_time_step returns `<time config>.physics_step_sec`, "
+        "ScenarioClock.fromConfig passes `config.physics_step_sec` itself as dt_step, the constructor stores it under an "
+        "identity wrapper, ticToc() without argument adds exactly dt_step, and Agent copies clock.dt_step. Otherwise "
+        "floor(D / step) iterations advance the run by something else than D",
+        "the value of the configured step",
+    )
+    sc = p.cls("resonaate.scenario.scenario.Scenario")
+    ck = p.cls("resonaate.scenario.clock.ScenarioClock")
+    pts = sc.methods.get("physics_time_step")
+
+    def f1():
+        b = property_body(pts)
+        require(b is not None, "Scenario.physics_time_step is not a single-return property", pts.node)
+        if isinstance(b, ast.Attribute) and b.attr == "physics_step_sec" and unparse(b.value) in ("self.scenario_config.time", "self._scenario_config.time"):
+            r.ok(pts.qualname, unparse(b), pts.loc())
+        else:
+            r.violation(pts.qualname, f"physics-step-source:{unparse(b)}", f"Scenario.physics_time_step is `{unparse(b)}`, not the configured time.physics_step_sec", pts.loc())
+
+    r.guard(pts.qualname, f1)
+    fc = ck.methods.get("fromConfig")
+    init = ck.methods.get("__init__")
+
+    def f2():
+        cfgp = fc.params[1]
+        rets = [n for n in walk_no_nested(fc.node) if isinstance(n, ast.Return) and n.value is not None]
+        require(len(rets) == 1 and isinstance(rets[0].value, ast.Call), "ScenarioClock.fromConfig does not return one constructor call", fc.node)
+        call = rets[0].value
+        iparams = init.params[1:]
+        require("dt_step" in iparams, "ScenarioClock.__init__ has no dt_step parameter", init.node)
+        idx = iparams.index("dt_step")
+        arg = call.args[idx] if idx < len(call.args) else next((k.value for k in call.keywords if k.arg == "dt_step"), None)
+        require(arg is not None, "fromConfig passes no dt_step", call)
+        e = inline_locals(fc, arg)
+        if unparse(e) == f"{cfgp}.physics_step_sec":
+            r.ok(fc.qualname, f"dt_step = {cfgp}.physics_step_sec", fc.loc(call))
+        else:
+            r.violation(fc.qualname, f"clock-step-source:{unparse(e)[:60]}", f"the clock is built with dt_step = `{unparse(e)[:80]}`, while Scenario.propagateTo counts steps of the configured physics_step_sec: for configurations where the two differ the run takes floor(D / physics step) steps of another length and stops short of (or overshoots) the requested duration, and the recorded epochs are not start + k * step", fc.loc(call))
+
+    r.guard(fc.qualname, f2)
+
+    def f3():
+        asg = [n for n in walk_no_nested(init.node) if isinstance(n, ast.Assign) and unparse(n.targets[0]) == "self.dt_step"]
+        require(len(asg) == 1, "ScenarioClock.__init__ assigns self.dt_step not exactly once", init.node)
+        v = asg[0].value
+        inner = v.args[0] if isinstance(v, ast.Call) and call_name(v) in ("ScenarioTime", "float") and len(v.args) == 1 else v
+        if unparse(inner) == "dt_step":
+            r.ok(init.qualname + ":dt_step", unparse(v), init.loc(asg[0]))
+        else:
+            r.violation(init.qualname + ":dt_step", f"clock-step-stored:{unparse(v)[:60]}", f"the clock stores dt_step as `{unparse(v)[:80]}`, not the step it was given", init.loc(asg[0]))
+        tt = ck.methods.get("ticToc")
+        augs = [n for n in walk_no_nested(tt.node) if isinstance(n, ast.AugAssign) and unparse(n.target) == "self.time"]
+        dflt = [n for n in augs if unparse(n.value) == "self.dt_step" and isinstance(n.op, ast.Add)]
+        if len(dflt) == 1:
+            r.ok(tt.qualname, "time += dt_step", tt.loc(dflt[0]))
+        else:
+            r.violation(tt.qualname, "tick:" + ";".join(unparse(n)[:40] for n in augs), "ScenarioClock.ticToc() without an argument does not advance the time by exactly dt_step", tt.loc())
+
+    r.guard(init.qualname, f3)
+    ag = p.func("Agent.__init__")
+
+    def f4():
+        asg = [n for n in walk_no_nested(ag.node) if isinstance(n, ast.Assign) and unparse(n.targets[0]) == "self._dt_step"]
+        require(len(asg) == 1, "Agent.__init__ assigns self._dt_step not exactly once", ag.node)
+        if unparse(asg[0].value) == "clock.dt_step":
+            r.ok(ag.qualname + ":_dt_step", "agents copy the clock's step", ag.loc(asg[0]))
+        else:
+            r.violation(ag.qualname + ":_dt_step", f"agent-step:{unparse(asg[0].value)[:60]}", f"agents step by `{unparse(asg[0].value)[:80]}`, not by the clock's dt_step", ag.loc(asg[0]))
+
+    r.guard(ag.qualname, f4)
+
+
 def run(chk, p, t):
     chk.explanation = (
         "Static decision of structural necessary conditions of C05: (R1) the float seconds of a Julian date are "
@@ -499,7 +577,7 @@ def run(chk, p, t):
         "algorithm over 1901-2099 (float arithmetic)."
     )
     chk.assumptions += ["round/around/rint round to nearest; int/floor/trunc truncate; timedelta normalises (carries) seconds"]
-    for fn in (rule_r1, rule_r2, rule_r3, rule_r4, rule_r5, rule_r6, rule_r7):
+    for fn in (rule_r1, rule_r2, rule_r3, rule_r4, rule_r5, rule_r6, rule_r7, rule_r8):
         rid = "C05.R" + fn.__name__[-1]
         if not chk.wants(rid):
             continue
